@@ -1,8 +1,10 @@
 #!/bin/sh
-# Re-run every kept seeded change against its property's check (quick tier); one line each.
+# Re-run every kept seeded change against the check that reports it (meta.json detected_by.check, normally the
+# check of its own property; quick tier); one line each: <name> <rc> <how the patch applied>.
 cd "$(dirname "$0")/.." || exit 2
 for d in seeded/${2:-C}*; do
-  n=$(basename $d); p=$(echo $n | cut -c1-3)
+  n=$(basename $d)
+  p=$(python3 -c "import json,sys; m=json.load(open('$d/meta.json')); print((m.get('detected_by') or {}).get('check') or '$n'[:3])")
   out=$(python3 tools/mutant.py run $d $p quick ${1:-0})
   rc=$(printf '%s' "$out" | python3 -c "import sys,json; d=json.loads(sys.stdin.read()); print(d.get('rc'), d.get('applies'))")
   echo "$n $rc"
